@@ -161,10 +161,24 @@ func TestVerifRejectScenarios(t *testing.T) {
 		}, allOrig, nil, nil},
 		{"iface-apply-size", func(b *mocker.Builder) { b.Interface(&ifc.J1).Method("Z").Apply(func(c *mocker.IContext, a int8) int { return 0 }) }, allOrig, nil, nil},
 	}
+	loopTok := func() string {
+		if fn.Loop(5) == 5 && fn.Loop(104) == 98 {
+			return "orig"
+		}
+		return fmt.Sprintf("mocked(%d)", fn.Loop(5))
+	}
+	more = append(more, scen{"origin-unrelocatable", func(b *mocker.Builder) {
+		b.Func(fn.Loop).Origin(&fn.OLoop).Apply(func(a int) int { return 3000 + fn.OLoop(a) })
+	}, loopTok, nil, nil})
 	scens = append(scens, more...)
 	for _, sc := range scens {
-		for _, prior := range []string{"never", "same-builder"} {
-			if prior == "same-builder" && (sc.follow == nil || sc.name == "when-few" || sc.name == "non-function") {
+		for _, prior := range []string{"never", "same-builder", "after-reset"} {
+			onF := sc.follow != nil && sc.name != "when-few" && sc.name != "non-function"
+			onLoop := sc.name == "origin-unrelocatable"
+			if prior == "same-builder" && !onF {
+				continue
+			}
+			if prior == "after-reset" && !onF && !onLoop {
 				continue
 			}
 			ifc.Restore()
@@ -174,6 +188,16 @@ func TestVerifRejectScenarios(t *testing.T) {
 				applyF(b)
 				r := im.funcs[fn.Pkg+".F"]
 				allowed = append(allowed, rng{r[0], r[0] + 13})
+			}
+			if prior == "after-reset" {
+				// the target was mocked and reset before (by another builder that is gone): the patch table still remembers it
+				b0 := mocker.Create()
+				if onLoop {
+					b0.Func(fn.Loop).Apply(func(a int) int { return 1000 })
+				} else {
+					applyF(b0)
+				}
+				b0.Reset()
 			}
 			v := catchVal(func() { sc.do(b) })
 			rec := map[string]string{"mistake": sc.name, "prior": prior, "outcome": "rejected", "cause": causeClass(v), "followup": "ok"}
